@@ -203,6 +203,8 @@ LuPool(fam) ==
        all == IF fam = "lu4" THEN {Pfx(l, <<10, 77, 203, 13>>) : l \in 0..32} ELSE {Pfx6(l, A6a) : l \in {0, 1, 7, 8, 9, 59, 60, 63, 64, 65, 120, 127, 128}}
    IN {Mp(fam, TRUE, nh, <<Lu(<<l>>, p)>>) : l \in Labels, p \in all}
       \cup {Mp(fam, TRUE, nh, <<Lu(<<l1, l2>>, ps[i])>>) : l1, l2 \in {0, 16, 524288, 1048575}, i \in 1..Len(ps)}
+      \* the reserved labels 1..3 and 7 above the bottom of a stack
+      \cup {Mp(fam, TRUE, nh, <<Lu(<<l1, 16>>, ps[1])>>) : l1 \in {1, 2, 3, 7, 13, 14, 15}} \cup {Mp(fam, TRUE, nh, <<Lu(<<16, 3, 17>>, ps[2])>>)}
       \* withdrawals: yabgp does not decode MP_UNREACH of the labeled-unicast families at all (and has no encoder for IPv6),
       \* so they are outside "every family both encoded and decoded"
       \cup {Mp(fam, TRUE, nh, <<Lu(<<16>>, ps[i]), Lu(<<l>>, ps[j])>>) : l \in {3, 1048575}, i, j \in 1..Len(ps)}
@@ -332,6 +334,10 @@ EncBytes(v) ==
 FsPool ==
    {Mp("fs", TRUE, nh, <<r>>) : nh \in {<<>>}, r \in FsRules(0)}
    \cup {Mp("fs", FALSE, <<>>, <<r>>) : r \in FsRules(0)}
+   \* rules of exactly 237..243 octets (the length form switches at 240): a prefix component of 3..6 octets and a port list
+   \cup {Mp("fs", r, <<>>, <<<<<<1, p>>, <<5, [i \in 1..n |-> FsOp("=", 2, <<1, i>>)]>>>>>>) : r \in BOOLEAN, n \in {77, 78, 79},
+              p \in {Pfx(8, <<10, 0, 0, 0>>), Pfx(16, <<10, 1, 0, 0>>), Pfx(24, <<10, 1, 2, 0>>), Pfx(32, <<10, 1, 2, 3>>)}}
+   \cup {Mp("fs", TRUE, <<>>, <<<<<<1, Pfx(24, <<10, 1, 2, 0>>)>>, <<5, [i \in 1..78 |-> FsOp("=", 2, <<1, i>>)]>>>>, <<<<3, <<FsOp("=", 1, <<6>>)>>>>>>>>)}
    \* several rules per attribute, announced and withdrawn, short rules and rules of 240 octets and more in every order
    \cup {Mp("fs", r, <<>>, <<a, b>>) : r \in BOOLEAN, a, b \in {<<<<1, P4s[4]>>>>, <<<<2, P4s[1]>>>>, <<<<3, <<FsOp("=", 1, <<6>>)>>>>>>, <<<<5, <<FsOp(">=", 2, <<1, 0>>), FsOp("<", 1, <<255>>)>>>>>>,
                                                                <<<<5, [i \in 1..80 |-> FsOp("=", 2, <<1, i>>)]>>>>, <<<<6, [i \in 1..100 |-> FsOp("=", 2, <<2, i>>)]>>>>}}
